@@ -196,8 +196,27 @@ fn batch_consistency_case<P: G>(d: usize) -> Box<dyn Case> {
                     let name: Vec<&str> = seq.iter().map(|k| kinds[*k]).collect();
                     *res.outcome_counter(&format!("batch-verdict:{}", vo.class())) += 1;
                     if !vo.is_ok() {
-                        // an all-valid batch that plain verification rejects is C03's finding
-                        *res.outcome_counter("valid-batch-not-accepted(skipped)") += 1;
+                        // an all-valid batch that plain verification rejects is C03's finding -- unless the seeds are what
+                        // makes the difference: the same batch with every seed removed
+                        let seedless: Vec<_> = sts
+                            .iter()
+                            .map(|st| {
+                                let mut s2 = st.clone();
+                                s2.seed_nonce = None;
+                                s2
+                            })
+                            .collect();
+                        let mut ts: Vec<merlin::Transcript> = members.iter().map(|m| m.2.transcript()).collect();
+                        let twin = verify_observed(&seedless, &proofs, &mut ts, VerifyAction::VerifyOnly);
+                        res.executions += 1;
+                        if twin.is_ok() {
+                            res.violate(
+                                format!("{}/seed-independence", name.join(",")),
+                                format!("the verdict of an all-valid batch depends on the presence of seeds: VerifyOnly {} with the seeds, {} without them", vo.describe(), twin.describe()),
+                            );
+                        } else {
+                            *res.outcome_counter("valid-batch-not-accepted(skipped)") += 1;
+                        }
                         continue;
                     }
                     match (&rv.result, &ro.result, &vo.result) {
